@@ -10,6 +10,7 @@ package transcode
 import (
 	"context"
 	"fmt"
+	"io"
 	"strings"
 	"sync"
 
@@ -28,6 +29,7 @@ import (
 	"verif/internal/textref"
 	"verif/internal/tmplref"
 	"verif/internal/vschema"
+	"verif/internal/wire"
 )
 
 // RuleSpec is one HTTP rule bound to one unary method. Svc != "" names a real
@@ -45,6 +47,8 @@ type RuleSpec struct {
 	Body   string `json:"body,omitempty"`
 	Resp   string `json:"resp,omitempty"`
 }
+
+func (r RuleSpec) isWebsocket() bool { return strings.EqualFold(r.Verb, "websocket") }
 
 func (r RuleSpec) bodyShape() string {
 	switch r.Body {
@@ -165,8 +169,39 @@ func (rc *recorder) Unary(ctx context.Context, md protoreflect.MethodDescriptor,
 	return out, nil
 }
 
+// Stream records every message of a client stream and answers each with a
+// small reply (so that a client can wait until a message has been handled).
 func (rc *recorder) Stream(md protoreflect.MethodDescriptor, ss grpc.ServerStream) error {
-	return status.Error(codes.Unimplemented, "transcode engine has no streaming handlers")
+	if !md.IsStreamingClient() || !md.IsStreamingServer() {
+		return status.Error(codes.Unimplemented, "transcode engine only handles bidi streams")
+	}
+	for n := 0; ; n++ {
+		in := vschema.NewMsg(md.Input())
+		if err := ss.RecvMsg(in); err != nil {
+			if err == io.EOF {
+				return nil
+			}
+			return err
+		}
+		rc.mu.Lock()
+		rc.calls = append(rc.calls, call{method: vschema.FullMethod(md), msg: cloneMsg(in)})
+		rc.mu.Unlock()
+		out := vschema.NewMsg(md.Output())
+		if fd := md.Output().Fields().ByName("text"); fd != nil && fd.Kind() == protoreflect.StringKind {
+			out.ProtoReflect().Set(fd, protoreflect.ValueOfString(fmt.Sprintf("ack-%d", n)))
+		} else if fd := md.Output().Fields().ByName("tag"); fd != nil && fd.Kind() == protoreflect.StringKind {
+			out.ProtoReflect().Set(fd, protoreflect.ValueOfString(fmt.Sprintf("ack-%d", n)))
+		}
+		if err := ss.SendMsg(out); err != nil {
+			return err
+		}
+	}
+}
+
+func (rc *recorder) peek() []call {
+	rc.mu.Lock()
+	defer rc.mu.Unlock()
+	return append([]call(nil), rc.calls...)
 }
 
 // plan is a rule resolved against its request type with the reference
@@ -266,6 +301,26 @@ type env struct {
 	kind     string            // "" = default options, muxCustom = two extra CodecOption codecs
 	regErr   map[string]string // rule ID -> registration error text
 	regPanic map[string]*mon.PanicInfo
+	srv      *wire.Server // real listener, started on first use (WebSocket cases)
+}
+
+// server starts (once) a real loopback listener in front of the mux.
+func (e *env) server() (*wire.Server, error) {
+	if e.srv == nil {
+		srv, err := wire.StartLarking(e.mux, nil)
+		if err != nil {
+			return nil, err
+		}
+		e.srv = srv
+	}
+	return e.srv, nil
+}
+
+func (e *env) close() {
+	if e.srv != nil {
+		e.srv.Close()
+		e.srv = nil
+	}
 }
 
 var envSeq struct {
@@ -299,6 +354,9 @@ func buildDynamic(rules []RuleSpec, kind string) (*env, error) {
 			return nil, fmt.Errorf("buildDynamic: rule %s belongs to %s", r.ID, r.Svc)
 		}
 		m := vschema.Method{Name: fmt.Sprintf("Me%d", i), In: r.In, Out: r.Out, Rule: r.httpRule()}
+		if r.isWebsocket() {
+			m.CS, m.SS = true, true // websocket bindings live on bidi methods
+		}
 		if r.Resp == "" {
 			main.Methods = append(main.Methods, m)
 			continue
@@ -347,7 +405,7 @@ func buildDynamic(rules []RuleSpec, kind string) (*env, error) {
 	return e, nil
 }
 
-var testpbServices = []string{"larking.testpb.Messaging", "larking.testpb.Files", "larking.testpb.WellKnown", "larking.testpb.Complex"}
+var testpbServices = []string{"larking.testpb.Messaging", "larking.testpb.Files", "larking.testpb.WellKnown", "larking.testpb.Complex", "larking.testpb.ChatRoom"}
 
 // buildTestpb registers the real larking.testpb services (their compiled-in
 // google.api.http annotations) with the recording handler.
@@ -545,6 +603,14 @@ func requestRules() (dynamic []RuleSpec, real []RuleSpec) {
 		cxRule("cx:var-top+body-star", "POST", "/ct/{double_value}", "*"),
 		cxRule("cx:var-oneof", "GET", "/cu/{oneof_string_value}", ""),
 		cxRule("cx:var-sint-fixed", "GET", "/cv/{sint32_value}/{sint64_value}/{fixed64_value}/{sfixed32_value}", ""),
+		// typed and bytes variables on rules that also map a body
+		vfRule("vf:var-bytes+body-star", "POST", "/pm/{y}", "*"),
+		vfRule("vf:var-scalars+body-star", "POST", "/pq/{n}/{l}/{u}/{f}/{e}/{dbl}", "*"),
+		vfRule("vf:var-bytes+body-sub", "PUT", "/pr/{y}/{sub.n}", "sub"),
+		cxRule("cx:var-bytes+body-star", "POST", "/cw/{bytes_value}", "*"),
+		cxRule("cx:var-nested-bytes+body-nested", "PATCH", "/cx/{nested.bytes_value}", "nested"),
+		cxRule("cx:var-nested-scalars+body-nested", "PATCH", "/cz/{nested.int32_value}/{nested.double_value}/{nested.bool_value}/{nested.enum_value}/{nested.uint64_value}", "nested"),
+		cxRule("cx:var-floats-fixed+body-star", "PUT", "/cy/{float_value}/{fixed32_value}/{sfixed64_value}/{sint32_value}", "*"),
 	}
 	rsp := "larking.testpb."
 	real = []RuleSpec{
